@@ -249,7 +249,7 @@ theorem udp_truncation_fails_size_checks (m : Md) (rem cut : Nat) (po : Bool)
 /-! ## A user hint is not a credential -/
 
 open Mieru.Discovery in
-private theorem cachedPhase_no_auth (n : Nat) (hint auth : Nat → Bool) (want : Bool) (hno : ∀ id, auth id = false)
+theorem cachedPhase_no_auth (n : Nat) (hint auth : Nat → Bool) (want : Bool) (hno : ∀ id, auth id = false)
     (l : List Nat) (a : Acc) : (cachedPhase n hint auth want l a).1 = none := by
   induction l generalizing a with
   | nil => rfl
@@ -260,7 +260,7 @@ private theorem cachedPhase_no_auth (n : Nat) (hint auth : Nat → Bool) (want :
     · simp only [hno id, Bool.false_eq_true, if_false]; exact ih _
 
 open Mieru.Discovery in
-private theorem registryPhase_no_auth (hint auth : Nat → Bool) (want : Bool) (hno : ∀ id, auth id = false)
+theorem registryPhase_no_auth (hint auth : Nat → Bool) (want : Bool) (hno : ∀ id, auth id = false)
     (l : List Nat) (a : Acc) : (registryPhase hint auth want l a).1 = none := by
   induction l generalizing a with
   | nil => rfl
